@@ -47,3 +47,11 @@ func debugDump(repo, scope string) {
 	}
 	fmt.Println(byKind, "units", pe.units, "bodies", pe.bodies)
 }
+
+func init() {
+	if os.Getenv("RARECHECK_DBG_ANCHOR") != "" {
+		debugAnchor = true
+	}
+}
+
+var debugAnchor bool
